@@ -228,6 +228,10 @@ char supla_esp_gpio_relay_hi(int port, unsigned char hi) {
 #endif /*RELAY_DOUBLE_TRY*/
 
   if (rs_cfg != NULL) {
+    if (t == 0) {
+      // 0 marks start_time and stop_time as not set
+      t = 1;
+    }
 
     if (__supla_esp_gpio_relay_is_hi(rs_cfg->up) == 0 &&
         __supla_esp_gpio_relay_is_hi(rs_cfg->down) == 0) {
